@@ -283,6 +283,11 @@ def script_st(draw):
             vals.append(F(draw(st.integers(0, 30)), 128))
         else:
             vals.append(F(draw(st.integers(0, 400)), 4))
+    mode = draw(st.sampled_from(["auto", "auto", "none", "redist", "Poisson"]))
+    if mode == "none":
+        # without resampling a stochastic engine must be given whole molecules: fractional amounts make its
+        # propensities negative after the first hop (time then runs backwards) -- a user error, not a valid script
+        vals = [F(round(v)) for v in vals]
     dt = draw(st.sampled_from([0.125, 0.1, 0.03, 0.25]))
     nst = draw(st.integers(1, 12))
     tmax = draw(st.sampled_from([None, dt * nst, dt * nst + dt / 3, dt * nst - dt / 7]))
@@ -295,7 +300,7 @@ def script_st(draw):
             "t_sample": [v * dt * 0.75 for v in ts], "time_step": dt, "t_max": tmax,
             "policy": draw(st.sampled_from(["on_t_sample", "on_iteration", "on_interval", "no_sampling"])),
             "interval": dt * 2.5, "seed": draw(st.integers(0, 2 ** 32 - 1)),
-            "mode": draw(st.sampled_from(["auto", "auto", "none", "redist", "Poisson"]))}
+            "mode": mode}
 
 
 @st.composite
